@@ -47,6 +47,33 @@ func ledgerWorkload(c *fw.Ctx, strata []stratum, total int, mon func(e *exec, st
 			c.Sample(map[string]any{"case": id, "input": e.input(), "real_outcome": e.out.Summary(), "store_calls": len(e.out.Calls)})
 		}
 	})
+	// allotments whose `remaining` clause is not the last one (the grammar and the interpreter accept it
+	// anywhere): source and destination allotments, nested, with kept, several accounts
+	extra := []stratum{
+		{"rem-anywhere", with(func(c *gen.LCfg) {
+			c.Accounts = []string{"a", "b", "c", "d"}
+			c.Assets = []string{"USD"}
+			c.PRemaining, c.PRemAnywhere, c.PSrcAllot, c.PDstAllot, c.PKept, c.PWorld, c.PUnbounded, c.PFunded = 85, 80, 45, 45, 25, 5, 5, 85
+			c.MaxStmts, c.Depth = 2, 2
+		}), 2},
+		{"rem-anywhere-deep", with(func(c *gen.LCfg) {
+			c.Assets = []string{"USD", "COIN"}
+			c.PRemaining, c.PRemAnywhere, c.PSrcAllot, c.PDstAllot, c.PKept, c.PSrcSeq, c.PDstSeq = 85, 80, 35, 35, 20, 30, 30
+			c.MaxStmts, c.Depth = 3, 3
+		}), 1},
+	}
+	forEachCase(extra, total/20+30, func(i int, id string, st *stratum, k int) {
+		if !c.Want(idx+50_000_000+i, id) {
+			return
+		}
+		cs := genCaseM(c.Rng(id), st.cfg)
+		e, ok := run(c, cs)
+		if !ok {
+			return
+		}
+		c.Count("stratum_rem_anywhere", 1)
+		mon(e, st.name)
+	})
 }
 
 func propC01() *fw.Prop {
